@@ -476,13 +476,19 @@ def transform(root, kind):
 def main():
     kinds = [a for a in sys.argv[1:] if not a.startswith("--")] or ["all"]
     if kinds == ["all"]:
-        kinds = ["unparse", "flipcmp", "invertif", "rename", "rename2", "rename3", "extractcond", "cellify", "earlyreturn", "attrrename", "docstring", "annotate", "ternary2if", "if2ternary", "aug2plain", "plain2aug", "kwify", "positionalise", "noop", "logcall"]
+        kinds = ["unparse", "flipcmp", "invertif", "rename", "rename2", "rename3", "extractcond", "cellify", "earlyreturn", "attrrename", "docstring", "annotate", "ternary2if", "if2ternary", "aug2plain", "plain2aug", "kwify", "positionalise", "noop", "logcall", "combo", "combo2"]
     bad = 0
     for kind in kinds:
         tmp = tempfile.mkdtemp(prefix="rxsa_rf_")
         try:
             shutil.copytree("/repo/reactivex", os.path.join(tmp, "reactivex"), ignore=shutil.ignore_patterns("__pycache__"))
-            n = transform(tmp, kind)
+            if kind.startswith("combo"):
+                chain = {"combo": ["flipcmp", "invertif", "rename3", "extractcond", "annotate", "kwify", "aug2plain", "ternary2if", "logcall", "attrrename"],
+                         "combo2": ["rename2", "cellify", "earlyreturn", "if2ternary", "plain2aug", "positionalise", "docstring", "noop", "attrrename", "flipcmp"]}[kind]
+                for k_ in chain:
+                    n = transform(tmp, k_)
+            else:
+                n = transform(tmp, kind)
             env = dict(os.environ, RXSA_REPO=tmp, RXSA_EVID_DIR=os.path.join(tmp, "evidence"))
             out = subprocess.run([sys.executable, os.path.join(V, "tools", "run_all.py"), "quick"], env=env, capture_output=True, text=True).stdout
             lines = [l for l in out.splitlines() if " rc=" in l and " rc=0 " not in l]
